@@ -49,6 +49,35 @@ theorem C16_run_copyright_needs_version (E : Asm.Engine) (cfg : Asm.Config) (o1 
     | (simp [ho, run.go, hc, hv]; done)
     | (simp [ho, run.go, hc, hv]; split <;> rfl)
 
+theorem setFile_same (p b : Bytes) (t : Tree) (h : lookup p t = some b) : setFile p b t = t := by
+  induction t with
+  | nil => rfl
+  | cons x rest ih =>
+    obtain ⟨q, c⟩ := x
+    simp only [lookup] at h
+    simp only [setFile]
+    by_cases hq : (q == p) = true
+    · simp only [hq, if_true, Option.some.injEq] at h
+      simp [hq, h]
+    · simp only [hq, Bool.false_eq_true, if_false] at h ⊢
+      rw [ih h]
+
+/-- a single-file `format --check` leaves the tree as it is -/
+theorem formatCmd_check_tree (lint : Bytes → Bool) (t : Tree) (arg : Bytes) (r : RunResult)
+    (h : formatCmd true lint t arg = some r) : r.tree = t := by
+  unfold formatCmd at h
+  split at h
+  · simp at h
+  · simp only [Option.some.injEq] at h; subst h
+    unfold formatAt
+    split
+    · rfl
+    · rename_i b hb
+      split
+      · rfl
+      · simp only [formatOne]
+        split <;> exact setFile_same _ b t hb
+
 /-- **C15.** generate and compare inspect; so do format and renumber-tests under --check -/
 theorem C15_run_inspects (E : Asm.Engine) (cfg : Asm.Config) (o1 o2 : Parser.Ord) (lint : Bytes → Bool) (vOk : Bool)
     (inv : Invocation) (t : Tree) (r : RunResult)
@@ -83,8 +112,10 @@ theorem C15_run_inspects (E : Asm.Engine) (cfg : Asm.Config) (o1 o2 : Parser.Ord
         · simp only [Option.some.injEq] at hg; subst hg
           exact C15_format_check_writes_nothing lint t
         · split at hg
+          · split at hg
+            · simp only [Option.some.injEq] at hg; subst hg; rfl
+            · exact formatCmd_check_tree lint t _ r hg
           · simp only [Option.some.injEq] at hg; subst hg; rfl
-          · simp at hg
     · simp only [hc, hk] at hg
       split at hg
       · simp only [Option.some.injEq] at hg; subst hg; rfl
